@@ -29,17 +29,25 @@ G == 0..(NG - 1)
 
 Agrees(want, have, S) == \A g \in S : want[g] = UNK \/ have[g] = want[g]
 
-\* the step relation: what (logical, backing, unrep) may become given the observation o of the call
-StepOK(o) ==
+\* the step relation: what (logical, backing, unrep) may become given the observation o of the call; lg0 / u0 = before the
+\* call, lg1 / bk1 / u1 = after it.  (State-function form, so that it can be evaluated at every level of a stack of managers:
+\* StackedIo evaluates it for the calls made on a wrapping manager, whose steps are several calls on the wrapped channel.)
+LogicalOK(o, lg0, lg1) ==
    LET wrote == o.op = "write"
-       base  == [g \in G |-> IF wrote /\ g \in o.rng THEN (IF o.ret = 0 THEN o.data[g] ELSE UNK) ELSE logical[g]]
-   IN /\ \A g \in G : \/ logical'[g] = base[g]
-                      \/ (g \in o.F /\ o.rep /\ logical'[g] = UNK)                 \* reported loss
-                      \/ (wrote /\ o.ret # 0 /\ g \in o.rng /\ logical'[g] \in {logical[g], o.data[g]})
-      /\ (o.op = "read" /\ o.ret = 0) => Agrees(logical, o.data, o.rng)             \* coherent
-      /\ (o.op \in {"flush", "close"} /\ o.ret = 0) => Agrees(logical', backing', G)  \* durable on flush / close
-      /\ unrep' = (unrep \/ (o.F # {} /\ ~o.rep))
-      /\ (o.op = "close" /\ o.ret = 0) => ~unrep'                                   \* failures reported before close succeeds
+       base  == [g \in G |-> IF wrote /\ g \in o.rng THEN (IF o.ret = 0 THEN o.data[g] ELSE UNK) ELSE lg0[g]]
+   IN \A g \in G : \/ lg1[g] = base[g]
+                   \/ (g \in o.F /\ o.rep /\ lg1[g] = UNK)                      \* reported loss
+                   \/ (wrote /\ o.ret # 0 /\ g \in o.rng /\ lg1[g] \in {lg0[g], o.data[g]})
+CoherentOK(o, lg0) == (o.op = "read" /\ o.ret = 0) => Agrees(lg0, o.data, o.rng)
+DurableOK(o, lg1, bk1) == (o.op \in {"flush", "close"} /\ o.ret = 0) => Agrees(lg1, bk1, G)
+UnrepAfter(o, u0) == u0 \/ (o.F # {} /\ ~o.rep)
+StepRel(o, lg0, lg1, bk1, u0, u1) ==
+   /\ LogicalOK(o, lg0, lg1)
+   /\ CoherentOK(o, lg0)                                                         \* coherent
+   /\ DurableOK(o, lg1, bk1)                                                     \* durable on flush / close
+   /\ u1 = UnrepAfter(o, u0)
+   /\ (o.op = "close" /\ o.ret = 0) => ~u1                                       \* failures reported before close succeeds
+StepOK(o) == StepRel(o, logical, logical', backing', unrep, unrep')
 
 \* stand-alone form (tiny constants only): any observation, any outcome the property allows
 CONSTANTS Tags
